@@ -491,6 +491,9 @@ func genDictCase(cx *CheckCtx, i int, allowQualKeys bool) *Case {
 		c.Ops = append(c.Ops, Op{Kind: OpFAdd, F: 0, Args: []Arg{st(kw("Var"), id("_"), op("="), &Grp{Api: "Index"}, kw("Any"), &Grp{Api: "Values", Args: refs})}})
 	}
 	n := r.Intn(cx.N(9, 13))
+	if r.Chance(3) {
+		n = pick(r, []int{16, 17, 33, 65, 129, 257}) // many pairs
+	}
 	d := &Dict{}
 	keyPool := []func() *Stmt{
 		func() *Stmt { return st(mkLit(pick(r, []string{"a", "b", "ab", "a.b", "k", "a", "Z", ""}))) },
